@@ -469,3 +469,77 @@ pub fn types_equal(p: &Plain, ps: &[T], q: &Plain, qs: &[T]) -> T {
     }
     all_eq(&labels_of(p, ps), &labels_of(q, qs))
 }
+
+// ------------------------------------------------------------------ PV accessors
+impl PV {
+    pub fn list(&self) -> &Vec<PV> {
+        match self {
+            PV::List(v) => v,
+            other => panic!("ENGINE-ERROR: expected list, got {:?}", other),
+        }
+    }
+    pub fn at(&self, i: usize) -> &PV {
+        &self.list()[i]
+    }
+    pub fn oh(&self) -> &RawOH {
+        match self {
+            PV::OH(f) => f,
+            other => panic!("ENGINE-ERROR: expected open hypergraph, got {:?}", other),
+        }
+    }
+    pub fn h(&self) -> &RawH {
+        match self {
+            PV::H(f) => f,
+            other => panic!("ENGINE-ERROR: expected hypergraph, got {:?}", other),
+        }
+    }
+    pub fn ff(&self) -> &RawFF {
+        match self {
+            PV::FF(f) => f,
+            other => panic!("ENGINE-ERROR: expected finite function, got {:?}", other),
+        }
+    }
+    pub fn ic(&self) -> &RawIC {
+        match self {
+            PV::IC(f) => f,
+            other => panic!("ENGINE-ERROR: expected segmented array, got {:?}", other),
+        }
+    }
+    pub fn t(&self) -> T {
+        match self {
+            PV::T(t) => *t,
+            other => panic!("ENGINE-ERROR: expected term, got {:?}", other),
+        }
+    }
+    /// list of terms
+    pub fn ts(&self) -> Vec<T> {
+        self.list().iter().map(|x| x.t()).collect()
+    }
+    pub fn of_ts(ts: &[T]) -> PV {
+        PV::List(ts.iter().map(|t| PV::T(*t)).collect())
+    }
+    pub fn is_panic(&self) -> bool {
+        matches!(self, PV::Panic(_))
+    }
+    /// `Some(x)` payload
+    pub fn some(&self) -> Option<&PV> {
+        match self {
+            PV::Some(b) => Some(&**b),
+            _ => None,
+        }
+    }
+}
+
+/// raw data equality of two open hypergraphs (every array element-wise, every codomain)
+pub fn raw_ff_eq(a: &RawFF, b: &RawFF) -> T {
+    tm::and(vec![all_eq(&a.table, &b.table), tm::eq(a.target, b.target)])
+}
+pub fn raw_ic_eq(a: &RawIC, b: &RawIC) -> T {
+    tm::and(vec![all_eq(&a.sizes, &b.sizes), tm::eq(a.sizes_target, b.sizes_target), all_eq(&a.vals, &b.vals), tm::eq(a.vals_target, b.vals_target)])
+}
+pub fn raw_h_eq(a: &RawH, b: &RawH) -> T {
+    tm::and(vec![raw_ic_eq(&a.s, &b.s), raw_ic_eq(&a.t, &b.t), all_eq(&a.w, &b.w), all_eq(&a.x, &b.x)])
+}
+pub fn raw_oh_eq(a: &RawOH, b: &RawOH) -> T {
+    tm::and(vec![raw_ff_eq(&a.s, &b.s), raw_ff_eq(&a.t, &b.t), raw_h_eq(&a.h, &b.h)])
+}
